@@ -120,6 +120,21 @@ PROPS = {
                              "BurntSushi/toml decoding"],
         assumptions=["host parts are IP literals or empty (host names need the resolver and are outside the model)"],
     ),
+    "C10": dict(
+        modules=["HT.Props.C10"],
+        streams=["c10svc"],
+        rule="the four real services (through services.Get, connection wrapped as the server wraps it, replies "
+             "recorded by the datagram connection): every request kind alone in bursts of 1..6/50/200, seeded mixes "
+             "from 1..3 interleaved source IPs over varying ports, memcached multi-command datagrams, an exhausted "
+             "source followed by a fresh one, 48 concurrent first datagrams from fresh sources (oracle only), and "
+             "golang.org/x/time/rate under a synthetic clock vs the exact bucket; non-trivial = more than 4 "
+             "datagrams / times; distinct = distinct case line",
+        trusted=COMMON_TB + ["golang.org/x/time/rate modelled as an exact integer token bucket (compared under a synthetic "
+                             "clock on every run, away from exact refill instants)",
+                             "request kinds -> (Allow, Write) structure table HT.Lim.kindCmds, validated by the run"],
+        assumptions=["refill over real 10-minute intervals is validated only at the library level with synthetic time",
+                     "window = any interval shorter than the limiter interval"],
+    ),
 }
 
 HOOK_COMMITS = ["0596fc6", "c47bf54", "a8020ca"]
@@ -128,6 +143,16 @@ NOT_BUILT = "check not built yet in this round (design in DESIGN.md section 7); 
 NOT_APPLICABLE = {("C%02d" % i): NOT_BUILT for i in range(1, 21)}
 
 MANIFEST_TEXT = {
+    "C10": dict(
+        text="Lean theorems over an exact token-bucket model: per datagram replies <= granted Allow calls and each grant "
+             "consumes one token; by induction over any time-ordered datagram history one source IP receives at most burst "
+             "replies in any window shorter than the interval; what a source receives is a function of its own datagrams only. "
+             "Tied to the four real services by differential reply counts and to x/time/rate by a synthetic-clock comparison.",
+        design_ref="DESIGN.md section 7, C10",
+        note="Trusted: Lean kernel; model HT.Lim; x/time/rate (compared, not verified); harness. sync.Map atomicity of "
+             "LoadOrStore is exercised by the concurrent first-datagram scenario (oracle only).",
+        technique="Lean 4 proof (conservation invariant over histories) + differential correspondence",
+    ),
     "C06": dict(
         text="Lean theorem: for every configuration and event stream, what a configured channel receives is exactly, and in "
              "exactly this order, one copy per event per filter occurrence naming it that admits the event (regex matching a "
